@@ -330,6 +330,8 @@ DEFAULT_OPTS = {
     'highlight': None, 'lowlight': None,
     # oracle-only options (no Lean model)
     'child_config': None, 'extra_flags': None, 'debug': False,
+    # a custom child renderer (extra_flags['render_value_fn']) that returns None where the filter accepts
+    'hide_values': None,
 }
 MODEL_OPTS = ('enable_summary', 'enable_summary_for_str', 'max_summary_len_for_str', 'enable_summary_tooltip',
               'enable_key_tooltip', 'key_style', 'collapse_level', 'uncollapse', 'name', 'include_keys',
@@ -340,6 +342,16 @@ def full_opts(o):
   d = dict(DEFAULT_OPTS)
   d.update(o)
   return d
+
+
+def path_only_pred(pred):
+  if 'type' in pred:
+    return False
+  if 'not' in pred:
+    return path_only_pred(pred['not'])
+  if 'or' in pred:
+    return all(path_only_pred(q) for q in pred['or'])
+  return True
 
 
 def is_pred(x):
@@ -622,11 +634,51 @@ def gen_xopts(rng, value):
                                    {'hide_frozen': False}])
   if rng.chance(0.12):
     o['debug'] = True
+  if rng.chance(0.15):
+    o['hide_values'] = {'pred': gen_pred(rng, value)}
   return o
 
 
 SCOPE_OPTS = ('enable_summary', 'enable_summary_for_str', 'max_summary_len_for_str', 'enable_summary_tooltip',
               'enable_key_tooltip', 'key_style', 'collapse_level', 'include_keys', 'exclude_keys')
+
+
+def containers_of(v, prefix=()):
+  out = []
+  ks = child_keys(v)
+  if ks:
+    out.append((list(prefix), v))
+    for k in ks:
+      out += containers_of(child(v, k), prefix + (k,))
+  return out
+
+
+def gen_mixed(rng):
+  """Containers whose children mix summary-style and label-style keys (callable key_style) while a
+  custom child renderer hides subsets of them: all label-style children, some, all summary-style ones."""
+  while True:
+    v = gen_value(rng, rng.randint(1, 3))
+    cs = [(p, n) for p, n in containers_of(v) if n['t'] in ('dict', 'pgdict', 'obj') and len(child_keys(n)) >= 2]
+    if cs:
+      break
+  path, node = rng.choice(cs)
+  keys = child_keys(node)
+  labels = rng.sample(keys, rng.randint(1, len(keys) - 1))
+  summaries = [k for k in keys if k not in labels]
+  mode = rng.below(5)
+  hidden = {0: labels, 1: rng.sample(labels, rng.randint(1, len(labels))), 2: summaries,
+            3: rng.sample(keys, rng.randint(1, len(keys))), 4: keys}[mode]
+  o = gen_opts(rng, v) if rng.chance(0.5) else dict(DEFAULT_OPTS)
+  o['include_keys'] = None
+  o['exclude_keys'] = None
+  o['key_style'] = {'pred': {'paths': [path + [k] for k in labels]}}
+  hp = {'paths': [path + [k] for k in hidden]}
+  if rng.chance(0.25):
+    hp = {'or': [hp, gen_pred(rng, v)]}
+  o['hide_values'] = {'pred': hp}
+  if rng.chance(0.3):
+    o['collapse_level'] = None
+  return {'op': 'render', 'value': v, 'opts': o}
 
 
 def gen_history(rng):
@@ -958,6 +1010,8 @@ class C20(Prop):
       yield gen_update(rng)
     for _ in range(150 if quick else 2500):
       yield gen_history(rng)
+    for _ in range(200 if quick else 4000):
+      yield gen_mixed(rng)
     for _ in range(6 if quick else 40):
       h = gen_history(rng)
       if not h['outer']:
@@ -1001,6 +1055,8 @@ class C20(Prop):
         if is_pred(o[f]):
           wire_opts[g] = wire_pred(o[f]['pred'])
           wire_opts[f] = dflt
+      if o['hide_values'] is not None:
+        wire_opts['hide_p'] = wire_pred(o['hide_values']['pred'])
       for f in ('highlight', 'lowlight'):
         wire_opts[f] = [] if o[f] is None else [[key_wire(k) for k in q] for q in o[f]['pred']['paths']]
       for f in ('key_color', 'summary_color'):
@@ -1094,17 +1150,12 @@ class C20(Prop):
     o = full_opts(o)
     if o['child_config'] is not None or o['extra_flags'] is not None or o['debug']:
       return False
+    if o['hide_values'] is not None and not path_only_pred(o['hide_values']['pred']):
+      return False
     if any(is_pred(o[k]) for k in ('key_color', 'summary_color')):
       return False
 
-    def path_only(pred):
-      if 'type' in pred:
-        return False
-      if 'not' in pred:
-        return path_only(pred['not'])
-      if 'or' in pred:
-        return all(path_only(q) for q in pred['or'])
-      return True
+    path_only = path_only_pred
 
     for f in ('include_keys', 'exclude_keys', 'key_style', 'uncollapse'):
       if is_pred(o[f]) and not path_only(o[f]['pred']):
@@ -1265,6 +1316,16 @@ class C20(Prop):
       kw['child_config'] = cc
     if o['extra_flags'] is not None:
       kw['extra_flags'] = dict(o['extra_flags'])
+    if o['hide_values'] is not None:
+      from pyglove.core.views.html.tree_view import HtmlTreeView
+      hide = py_pred(o['hide_values']['pred'], rekey)
+
+      def render_value_fn(view, *, value, name, parent, root_path, **kwargs):
+        if hide(root_path, value, parent):
+          return None
+        return HtmlTreeView.render(view, value=value, name=name, parent=parent, root_path=root_path, **kwargs)
+
+      kw.setdefault('extra_flags', {})['render_value_fn'] = render_value_fn
     if o['debug']:
       kw['debug'] = True
     return kw
@@ -1572,6 +1633,8 @@ class C20(Prop):
       seq = t in ('list', 'tuple', 'pglist')
       for k in displayed_children(spec, path):
         c = child(spec, k)
+        if o['hide_values'] is not None and eval_pred(o['hide_values']['pred'], path + [k], c):
+          continue            # the custom renderer returns nothing for this child: neither key nor subtree
         ks = o['key_style']
         if is_pred(ks):
           ks = 'label' if eval_pred(ks['pred'], path + [k], c) else 'summary'
@@ -1975,7 +2038,7 @@ class C20(Prop):
         if o[k]:
           h.append('opt:' + k)
       for k in ('title', 'css_classes', 'key_color', 'summary_color', 'highlight', 'lowlight', 'child_config',
-                'extra_flags', 'debug'):
+                'extra_flags', 'debug', 'hide_values'):
         if o[k]:
           h.append('opt:' + k + (':callable' if is_pred(o[k]) and k.endswith('color') else ''))
       for k in ('include_keys', 'exclude_keys', 'key_style', 'uncollapse'):
